@@ -30,6 +30,8 @@ def gen_case(rng, max_funcs=4, allow_internal=True, allow_reduce=True, allow_nom
         kind = "scalar" if rank == 0 else ("list" if rank == 1 and rng.random() < 0.5 else "ndarray")
         if kind == "ndarray" and allow_int_arrays and rng.random() < 0.4:
             kind = "ndarray-int"  # a numeric (int64) array instead of an object array of strings
+        elif kind == "list" and allow_int_arrays and rng.random() < 0.3:
+            kind = "range"  # a plain Python range object as 1-d input
         roots[name] = {"axes": list(axes), "kind": kind}
     funcs = []
     for fi in range(rng.randint(1, max_funcs)):
@@ -145,6 +147,10 @@ def make_inputs(case):
             base = 1000 * (1 + int(name[1:]) if name[1:].isdigit() else 7)
             inputs[name] = (base + np.arange(int(np.prod(shape)), dtype=np.int64)).reshape(shape)
             continue
+        if r["kind"] == "range":
+            base = 1000 * (1 + int(name[1:]) if name[1:].isdigit() else 7)
+            inputs[name] = range(base, base + shape[0])
+            continue
         arr = np.empty(shape, dtype=object)
         for idx in np.ndindex(*shape):
             arr[idx] = name + "<" + ".".join(map(str, idx)) + ">"
@@ -161,6 +167,8 @@ def variant_inputs(inputs, tag="~2"):
             return x + 500
         if isinstance(x, list):
             return [ren(y) for y in x]
+        if isinstance(x, range):
+            return range(x.start + 500, x.stop + 500)
         if isinstance(x, np.ndarray) and x.dtype != object:
             return x + 500
         a = np.empty(x.shape, dtype=object)
